@@ -178,9 +178,9 @@ import re as _re
 _HOLE = _re.compile(r"\?([a-z_][a-z0-9_]*)(?::(str|float|int))?")
 
 
-def render(text, concrete=None):
+def render(text, concrete=None, holes=None):
     """template text with ?hole markers -> (Sylt source with placeholder or concrete literals, Holes)"""
-    holes = Holes()
+    holes = holes if holes is not None else Holes()
     def sub(m):
         return holes.literal(m.group(1), m.group(2) or "int", concrete)
     # comments may not contain markers
